@@ -2,6 +2,7 @@ import Np.Proofs.Lead
 import Np.Proofs.Index
 import Np.Model.Compare
 import Np.Model.Dims
+import Np.Proofs.LeadArr
 /-! C19 — leading-term queries, decomposition, set_dimensions and the sort proxy: property theorems -/
 namespace Np.Props.C19
 open Np.Ord
@@ -49,4 +50,43 @@ theorem setDimsDrop_zero (rc : Bool) (d : Nat) (p : Poly S)
 /-- non-vacuity: `set_dimensions(polynomial([3*q1, q1+q0*q1]), 1)` drops every term -/
 example : (setDimsDrop false 1 ({ names := [0, 1], terms := [([0, 1], (3 : Int)), ([1, 1], 1)] } : Poly Int)).terms
     = [([0], 0)] := by decide
+
+/-! ### the executable array-level queries of the model (what the driver runs) -/
+section arrays
+open Np.Index
+variable {R : Type} [Zero R] [BEq R] [LawfulBEq R] {n : Nat}
+
+/-- **lead terms on arrays**: every element of `leadArr` is the largest term with a non-zero coefficient *of that
+element* in the selected order, and the all-zero exponent with coefficient 0 for a zero element — well-formed
+arrays of every shape and number of terms, all four (graded, reverse) orders -/
+theorem leadArr_is_largest (graded reverse : Bool) (p : Poly (Vec R n)) (hw : WF p) (i : Fin n) :
+    ((∀ t ∈ elemRows p i, t.2 = 0) ∧
+        (leadArr graded reverse p).get i = (List.replicate p.names.length 0, 0)) ∨
+    ∃ t ∈ elemRows p i, t.2 ≠ 0 ∧ (leadArr graded reverse p).get i = t ∧
+      ∀ u ∈ elemRows p i, u.2 ≠ 0 → u = t ∨ glexLt graded reverse u.1 t.1 = true :=
+  leadArr_spec graded reverse p hw i
+
+/-- **sortable_proxy is a permutation** of the flat positions `0 … n-1`, whatever the coefficient comparison -/
+theorem proxy_perm (lt : R → R → Bool) (graded reverse : Bool) (p : Poly (Vec R n)) :
+    (proxyArr lt graded reverse p).Perm (List.range n) := proxyArr_perm lt graded reverse p
+
+/-- ties (equal keys) keep their original relative order — what argmax/argmin rely on after the repair of D9 -/
+theorem proxy_stable (lt : R → R → Bool) (graded reverse : Bool) (p : Poly (Vec R n))
+    (i j : Nat) (hij : i < j) (hj : j < n)
+    (h : keyLe lt ((proxyKey lt graded reverse p).getD i (0, 0)) ((proxyKey lt graded reverse p).getD j (0, 0)) = true) :
+    (proxyArr lt graded reverse p).getD i 0 < (proxyArr lt graded reverse p).getD j 0 :=
+  proxyArr_stable lt graded reverse p i j hij hj h
+end arrays
+
+/-- **sortable_proxy is monotone** in (position of the leading exponent, leading coefficient) for any linearly
+ordered coefficient type: a strictly smaller key gets a strictly smaller proxy value -/
+theorem proxy_monotone {K : Type} [LinearOrder K] [Zero K] [BEq K] {n : Nat} (graded reverse : Bool)
+    (p : Poly (Vec K n)) (i j : Nat) (hi : i < n) (hj : j < n)
+    (h : let keys := proxyKey (fun x y : K => decide (x < y)) graded reverse p
+         (keys.getD i (0, 0)).1 < (keys.getD j (0, 0)).1 ∨
+           ((keys.getD i (0, 0)).1 = (keys.getD j (0, 0)).1 ∧ (keys.getD i (0, 0)).2 < (keys.getD j (0, 0)).2)) :
+    (proxyArr (fun x y : K => decide (x < y)) graded reverse p).getD i 0 <
+      (proxyArr (fun x y : K => decide (x < y)) graded reverse p).getD j 0 :=
+  proxyArr_monotone_linearOrder graded reverse p i j hi hj h
+
 end Np.Props.C19
